@@ -103,6 +103,14 @@ def grafting_table(ctx, rep, rule: str) -> None:
         it = Interp(env, resolve_name=resolve, call_hook=hook)
         got = {}
         try:
+            # locals that merely name a sub-expression of the group (e.g. `grafting_config = group[GRAFTING_CONFIG]`)
+            for nm in sorted({n.id for k in call.keywords for n in ast.walk(k.value) if isinstance(n, ast.Name)} - set(env)):
+                defs = A.assignments_to(fi.node, nm)
+                if len(defs) == 1:
+                    try:
+                        it.env[nm] = it.ev(defs[0])
+                    except Unsupported:
+                        pass
             for kw in ("beta2", "epsilon", "use_bias_correction"):
                 v = A.keyword(call, kw)
                 got[kw] = it.ev(v) if v is not None else None
